@@ -1337,6 +1337,7 @@ def stmt_range_features(info, req):
         b = getattr(par, fld, None)
         if isinstance(b, list) and stmts[-1] in b:
             blk = b
+    f['single_return_next_line'] = len(stmts) == 1 and isinstance(stmts[0], ast.Return) and req['variant'] == 'next-line'
     f['ends_block_next_line'] = req['variant'] == 'next-line' and blk is not None and blk[-1] is stmts[-1]
     return f
 
@@ -1352,6 +1353,8 @@ def _new_func_shape(new):
 def classify_xfun_stmt(feats, status, new, base):
     """why-string for a failing statement-range extraction (None: not a known class)."""
     if status[0] == 'syntax':
+        if feats['single_return_next_line'] and re.search(r'def %s\([^)]*\):\n\s*\n\s*return \n' % NEW_FUNC, new):
+            return 'whole-return-statement-line-selected'
         if feats['ends_block_next_line'] and re.search(r'def %s\([^)]*\):\n\s*\n\s*return \n' % NEW_FUNC, new):
             return 'range-to-next-line-after-block-end'
         if feats['loop_ctrl_outside']:
@@ -1422,6 +1425,7 @@ def expr_sel_features(module_node, req, selected_text, new):
         nodes = _ex._find_nodes(module_node, (req['line'], req['col']),
                                 None if req.get('uline') is None else (req['uline'], req['ucol']))
         f['first_node_type'] = nodes[0].type
+        f['is_expression'] = _ex._is_expression_with_error(nodes)[0]
     except Exception:
         f['first_node_type'] = None
     if req.get('uline') is None:
@@ -1457,7 +1461,8 @@ def expr_sel_features(module_node, req, selected_text, new):
 def classify_expr_sel(kind, f, status, new):
     if f.get('is_target'):
         return 'assignment-target-extracted'
-    if kind == 'xfun' and f.get('first_node_type') is not None and f['first_node_type'] not in VARIABLE_EXTRACTABLE:
+    if kind == 'xfun' and f.get('first_node_type') is not None and (
+            f['first_node_type'] not in VARIABLE_EXTRACTABLE or f.get('is_expression') is False):
         return 'non-expression-selection-treated-as-statements'
     if f['starts_on_keyword_operator']:
         return 'range-starts-on-keyword-operator'
